@@ -4,6 +4,13 @@ From PyecoreV Require Import Model.XmiAttr Model.JsonVal.
 Import ListNotations.
 Open Scope Z_scope.
 
+Lemma XmiAttrProofs_str_eqb_eq a : forall b, str_eqb a b = true -> a = b.
+Proof.
+  induction a as [|x a IH]; intros [|y b] H; simpl in H; try discriminate; [reflexivity|].
+  apply andb_true_iff in H. destruct H as [H1 H2]. apply Z.eqb_eq in H1. subst.
+  rewrite (IH b H2). reflexivity.
+Qed.
+
 Section RoundTrip.
   Variable O : Type.
   Variable to_string : O -> str.
@@ -40,7 +47,41 @@ Section RoundTrip.
     destruct v, t; simpl; intros H; try contradiction; split; intros E;
       try reflexivity; try discriminate.
   Qed.
+  (* the entry of a single-valued attribute, with the "leave out the default" decision *)
+  Variable veq : pyv O -> pyv O -> bool.
+  Hypothesis veq_eq : forall a b, veq a b = true -> a = b.      (* == on one type's values is identity here *)
+
+  Theorem json_entry_roundtrip sd t (dflt v : pyv O) :
+    well_typed t v ->
+    read_entry from_string t dflt (write_entry to_string veq sd t dflt v) = v.
+  Proof.
+    intros H. unfold write_entry. destruct (negb sd && veq v dflt) eqn:E; simpl.
+    - apply andb_true_iff in E. destruct E as [_ E]. symmetry. exact (veq_eq _ _ E).
+    - exact (json_value_roundtrip t v H).
+  Qed.
+
+  (* with SERIALIZE_DEFAULT_VALUES nothing is left out *)
+  Theorem json_entry_serialize_default t (dflt v : pyv O) :
+    write_entry to_string veq true t dflt v = Some (to_json to_string t v).
+  Proof. reflexivity. Qed.
 End RoundTrip.
+
+Lemma veq_text_eq : forall a b, veq_text a b = true -> a = b.
+Proof.
+  intros [|x|x|x|x|x|] [|y|y|y|y|y|]; simpl; intros Heq; try discriminate; try reflexivity.
+  - apply Z.eqb_eq in Heq. congruence.
+  - apply Z.eqb_eq in Heq. congruence.
+  - apply Bool.eqb_prop in Heq. congruence.
+  - rewrite (XmiAttrProofs_str_eqb_eq _ _ Heq). reflexivity.
+  - rewrite (XmiAttrProofs_str_eqb_eq _ _ Heq). reflexivity.
+Qed.
+
+(* writer testing against another default than the reader's: the value is lost
+   (shape of the seeded regression value == attr.default_value) *)
+Example json_entry_two_defaults_lose_the_value :
+  read_entry (fun s : str => Some s) TInt (PInt 3)
+    (write_entry (fun s : str => s) veq_text false TInt (PInt 0) (PInt 0)) = PInt 3.
+Proof. vm_compute. reflexivity. Qed.
 
 (* the extracted instance (an object is named by its canonical text) meets the hypothesis *)
 Lemma text_instance_roundtrip : forall o : str, (fun s : str => Some s) ((fun s : str => s) o) = Some o.
